@@ -99,6 +99,7 @@ type Sim struct {
 	realSubj   *Subject
 	bHalted    bool
 	pathBroken bool
+	solo       *Subject
 	inits      []inboundInit
 	outbound   []outPkt
 	acks       []ackItem
